@@ -235,6 +235,16 @@ Theorem ALGO_quiescent_spec : forall t0 lg0 acts w,
 Proof. exact algo_quiescent_spec. Qed.
 Print Assumptions ALGO_quiescent_spec.
 
+(* C02 at every moment, not only at quiet: whatever the engine is doing, a file a user made and still has is live on
+   that user's own side with the content the user wrote last *)
+Theorem ALGO_own_files_kept : forall t0 lg0 acts w,
+  lg0 <= t0 + 1 -> in_F1 (cfg_std 1) (history_of acts) = true ->
+  algo_run (world_init (cfg_std 1) t0 lg0) acts = ROk w ->
+  forall rel d, (in_lv (spec_L (history_of acts)) rel d -> In (rel, (ProvModel.KFile, d)) (rel_view w false)) /\
+                (in_lv (spec_R (history_of acts)) rel d -> In (rel, (ProvModel.KFile, d)) (rel_view w true)).
+Proof. exact algo_own_files_kept. Qed.
+Print Assumptions ALGO_own_files_kept.
+
 (* the same from any world satisfying the invariant and linked to the bookkeeping *)
 Theorem ALGO_quiescent_is_spec : forall used lvL lvR g w,
   Inv g w -> Dom used lvL lvR g w -> quiescent w = true ->
